@@ -38,7 +38,11 @@ func (h *hashMergeStrategy) evaluate(m *MethodEvaluator) error {
 
 	hashT := m.evaluatedObjectT.DeepCopy()
 
-	hashT.MergeHash(evaluatedArgs[0])
+	// without an argument there is nothing to merge (the arity error is
+	// reported in the check round only, the other rounds get here)
+	if len(evaluatedArgs) > 0 {
+		hashT.MergeHash(evaluatedArgs[0])
+	}
 
 	m.parser.SetLastEvaluatedT(hashT)
 
@@ -71,7 +75,9 @@ func (h *hashDestructionMergeStrategy) evaluate(m *MethodEvaluator) error {
 
 	hashT := m.evaluatedObjectT
 
-	hashT.MergeHash(evaluatedArgs[0])
+	if len(evaluatedArgs) > 0 {
+		hashT.MergeHash(evaluatedArgs[0])
+	}
 
 	m.parser.SetLastEvaluatedT(hashT)
 
